@@ -18,6 +18,23 @@ MCActorOf == [r \in MCReps |-> r]
 
 View == coreView
 
+\* ---- scenario scripts (INIT ScriptInit) ------------------------------------------
+CONSTANT ScriptName
+A(m) == [c |-> "add", m |-> m, ms |-> NoSet]
+R(m) == [c |-> "rm", m |-> m, ms |-> NoSet]
+RA(ms) == [c |-> "rmall", m |-> 0, ms |-> ms]
+Script ==
+  CASE ScriptName = "none" -> <<>>
+    \* two removes with the SAME context (read() of the set) for different members, issued by a third party
+    [] ScriptName = "same_ctx_removes" ->
+         << <<"gen", 1, A(1)>>, <<"gen", 1, A(2)>>, <<"dlv", 2, 1>>, <<"dlv", 2, 2>>,
+            <<"gen", 2, RA({1})>>, <<"gen", 2, RA({2})>> >>
+    \* KF-18a shape: two pending removes whose contexts collapse after a reset (4 actors)
+    [] ScriptName = "collapsing_pending" ->
+         << <<"gen", 1, A(1)>>, <<"dlv", 2, 1>>, <<"gen", 2, R(1)>>, <<"dlv", 3, 1>>, <<"gen", 3, A(1)>>,
+            <<"gen", 3, R(1)>>, <<"dlv", 4, 2>>, <<"dlv", 4, 3>> >>
+ScriptInit == InitAfter(Script)
+
 ProjB(s) == [clock |-> s.clock, entries |-> s.entries, deferred |-> s.deferred]
 
 Who == LET a == Last(hist') IN IF a[1] = "save" THEN 0 ELSE a[2]
